@@ -15,12 +15,12 @@ from typing import Any, Dict, List, Optional, Tuple
 from ..core import Acc, REPO, Violation, hyp_run, judge, ncpu, trunc
 from ..gen import rexproj
 from ..sysutil import files_to_mods
-from .c07 import MAX_ORDERS, STALE, build_in_order, orders_for
+from .c07 import MAX_ORDERS, SAMPLED_ORDERS, STALE, build_in_order, orders_for
 
 ID = "C06"
 RULE = ("generated packages with cross-module bases, star imports, __all__ re-exports (one re-exporter per object), explicit import "
         "cycles and consumer modules named to sort before/after the modules they depend on; real test packages in the thorough tier; "
-        "x every reachable processing order (exhaustive when <= 120, else 64). Non-trivial when >=2 orders exist in which some imported "
+        "x every reachable processing order (thorough: exhaustive when <= 120, else 64 evenly spaced; quick: exhaustive when <= 24, else 32). Non-trivial when >=2 orders exist in which some imported "
         "module is processed after its importer; distinct by hash of the abstract project.")
 ASSUMPTIONS = [
     "objects re-exported by two modules are excluded from the re-export-location comparison (statement); the generator gives each object one re-exporter",
@@ -58,8 +58,8 @@ def check_files(files: Dict[str, str], cyclic: bool, stale_possible: bool, star_
     orders = orders_for(mods, MAX_ORDERS)
     info: Dict[str, Any] = {'orders_total': len(orders), 'exhaustive': len(orders) <= MAX_ORDERS}
     if len(orders) > MAX_ORDERS:
-        step = len(orders) / 64.0
-        orders = [orders[int(i * step)] for i in range(64)]
+        step = len(orders) / float(SAMPLED_ORDERS)
+        orders = [orders[int(i * step)] for i in range(SAMPLED_ORDERS)]
     info['orders_run'] = len(orders)
     ref = None
     ref_names: List[str] = []
